@@ -19,7 +19,8 @@ package generator
 //@   ensures @C06 err == nil ==> len(res.Extensions) == len(c.Extensions) && (forall k in [0, len(c.Extensions)) :: res.Extensions[k] == builderOf(old(c.Extensions[k])) && builderErr(old(c.Extensions[k])) == #nilAny)
 //@   ensures @C06,C08 (forall k in [0, len(c.Extensions)) :: builderErr(old(c.Extensions[k])) == #nilAny) || err != nil
 //@   ensures @C03 err == nil ==> (c.Subject != nil ==> res.TbsCertificate.Subject == c.Subject)
-//@   ensures @C03 err == nil ==> res.TbsCertificate.IssuerUniqueId == c.IssuerUniqueId && res.TbsCertificate.SubjectUniqueId == c.SubjectUniqueId
+// (C06 names the unique ids among the raw values that reach the certificate unchanged)
+//@   ensures @C03,C06 err == nil ==> res.TbsCertificate.IssuerUniqueId == c.IssuerUniqueId && res.TbsCertificate.SubjectUniqueId == c.SubjectUniqueId
 //@   ensures @C03 err == nil ==> res.TbsCertificate.SerialNumber != nil && (if c.SerialNumber != 0 then BigVal(res.TbsCertificate.SerialNumber) == c.SerialNumber else (0 <= BigVal(res.TbsCertificate.SerialNumber) && BigVal(res.TbsCertificate.SerialNumber) < pow2(159)))
 //@   ensures @C04 err == nil ==> res.TbsCertificate.Validity.NotBefore == utc(c.Validity.From) && res.TbsCertificate.Validity.NotAfter == utc(c.Validity.Until)
 //@   ensures @C19,C02 err == nil ==> res.TbsCertificate.Version == (if M.Version != nil then deref(M.Version) else 2)
